@@ -5,7 +5,7 @@
    what the source says now. *)
 From Coq Require Import List NArith ZArith Bool.
 From MirV Require Import Mir.Opcode C15.Defs gen.InsnDescs C15.Validate C15.DocModes C15.TableProofs
-  C15.ValidateProofs C15.VarProofs C15.FuncProofs.
+  C15.ValidateProofs C15.VarProofs C15.FuncProofs C15.ErrProofs C15.DeclProofs C15.Examples.
 Import ListNotations.
 
 (* insn_descs[] is usable as the checker uses it: one row per opcode below MIR_INSN_BOUND, row i
@@ -87,3 +87,74 @@ Theorem validate_iff_doc_guard_needed :
               /\ check_body [] {| f_vararg := false; f_res := []; f_regs := []; f_nvars := 0; f_nglobals := 0 |} [ins] = Ok tt.
 Proof. exact undocumented_code_accepted. Qed.
 Print Assumptions validate_iff_doc_guard_needed.
+
+(* The error code is specific.  (1) For every fixed-arity opcode, operand position and operand
+   shape the verdict at that position is exactly the code of the violation class of the operand
+   (undeclared register -> MIR_undeclared_func_reg_error, memory of a non-data type ->
+   MIR_wrong_type_error, non-integer base/index -> MIR_reg_type_error, wrong kind / value class ->
+   MIR_op_mode_error, non register/memory result -> MIR_out_op_error), or acceptance when there is
+   no violation. *)
+Theorem position_error_code : forall code sig i cls s,
+  doc_sig code = Some sig -> nth_error sig i = Some cls -> shape_wf s = true ->
+  pos_result code i s = doc_pos_result cls s.
+Proof. exact position_error_code_lemma. Qed.
+Print Assumptions position_error_code.
+
+(* (2) A rejected fixed-arity instruction is rejected with MIR_ops_num_error when the operand
+   count is wrong, and otherwise with the code of the violation of one of its operands that MIR.md
+   indeed forbids at its position. *)
+Theorem validate_error_code_specific : forall unspec fc ins sig e,
+  fc_wf fc -> doc_sig (i_code ins) = Some sig -> check_insn unspec fc ins = Err e ->
+  (length (i_ops ins) <> length sig /\ e = E_ops_num)
+  \/ (length (i_ops ins) = length sig
+      /\ exists i cls o v, nth_error sig i = Some cls /\ nth_error (i_ops ins) i = Some o
+                           /\ doc_shape_ok cls (shape_of fc o) = false
+                           /\ doc_violation cls (shape_of fc o) = Some v
+                           /\ e = code_of_violation v).
+Proof. exact validate_error_code_specific_lemma. Qed.
+Print Assumptions validate_error_code_specific.
+
+(* Every state the construction API can reach satisfies the hypotheses (fc_wf, res_types_ok) of
+   the theorems above. *)
+Theorem reachable_wf : forall cmds s s', state_wf s -> run s cmds = Ok s' -> state_wf s'.
+Proof. exact reachable_wf_lemma. Qed.
+Print Assumptions reachable_wf.
+
+(* Creating instructions one by one through the API and finishing the function is check_body. *)
+Theorem api_run_is_check_body : forall s fc insns, s_func s = Some fc -> s_insns s = [] ->
+  unit_of (run s (map as_cmd insns ++ [CFinish])) = check_body (s_unspec s) fc insns.
+Proof. exact api_run_is_check_body_lemma. Qed.
+Print Assumptions api_run_is_check_body.
+
+(* Declarations. *)
+Theorem reserved_name_spec : forall n,
+  reserved_name_p n = true
+  <-> (exists rest, n = [46; 108; 99]%N ++ rest)
+      \/ (exists ds, n = [104; 114]%N ++ ds /\ Forall (fun c => (48 <= c <= 57)%N) ds).
+Proof. exact reserved_name_spec_lemma. Qed.
+Print Assumptions reserved_name_spec.
+
+Theorem reserved_name_rejected : forall fc t nm hard, reg_type_ok t = true -> reserved_name_p nm = true ->
+  new_func_reg fc t nm hard = Err E_reserved_name.
+Proof. exact reserved_rejected_lemma. Qed.
+Print Assumptions reserved_name_rejected.
+
+Theorem redeclared_register_rejected : forall fc t nm hard d, reg_type_ok t = true -> reserved_name_p nm = false ->
+  find_rd_by_name fc nm = Some d -> new_func_reg fc t nm hard = Err E_repeated_decl.
+Proof. exact redeclared_rejected_lemma. Qed.
+Print Assumptions redeclared_register_rejected.
+
+Theorem bad_register_type_rejected : forall fc t nm hard, reg_type_ok t = false ->
+  new_func_reg fc t nm hard = Err E_reg_type.
+Proof. exact bad_reg_type_rejected_lemma. Qed.
+Print Assumptions bad_register_type_rejected.
+
+Theorem declared_register_found : forall fc t nm fc' r, new_func_reg fc t nm None = Ok (fc', r) ->
+  mir_reg fc' nm = Ok r /\ mir_reg_type fc' r = Ok t.
+Proof. exact declared_found_lemma. Qed.
+Print Assumptions declared_register_found.
+
+Theorem undeclared_register_lookup_rejected : forall fc nm,
+  find_rd_by_name fc nm = None -> mir_reg fc nm = Err E_undeclared_func_reg.
+Proof. exact undeclared_lookup_lemma. Qed.
+Print Assumptions undeclared_register_lookup_rejected.
